@@ -159,13 +159,17 @@ func runCheck(eng *Engine, prop, tier string, verbose, noReplay bool) int {
 	timeout := timeoutFor(tier)
 	tGen := time.Now()
 	for _, k := range keys {
-		tf := time.Now()
-		r := eng.verifyFunc(k, eng.cs.Funcs[k], -1)
-		if verbose {
-			fmt.Printf("  gen %-70s %.2fs paths=%d obs=%d side=%d/%d\n", k, time.Since(tf).Seconds(), r.Paths, len(r.Obs), r.Side.Proved, r.Side.Asked)
+		for _, view := range eng.cs.Funcs[k].Views() {
+			tf := time.Now()
+			eng.curView = view
+			r := eng.verifyFunc(k, eng.cs.Funcs[k], -1)
+			eng.curView = ""
+			if verbose {
+				fmt.Printf("  gen %-70s %.2fs paths=%d obs=%d side=%d/%d view=%q\n", k, time.Since(tf).Seconds(), r.Paths, len(r.Obs), r.Side.Proved, r.Side.Asked, view)
+			}
+			results = append(results, r)
+			fns = append(fns, fnInfo{k, r.Where, r.Instrs, r.Paths})
 		}
-		results = append(results, r)
-		fns = append(fns, fnInfo{k, r.Where, r.Instrs, r.Paths})
 	}
 	// dependency closure: the proofs above rely on the contracts of the functions they call (in code or in specs); every such
 	// contract that is not an assumed one is verified here too, so that a change inside a callee that breaks the callee's
@@ -190,13 +194,17 @@ func runCheck(eng *Engine, prop, tier string, verbose, noReplay bool) int {
 		}
 		for _, k := range more {
 			done[k] = true
-			tf := time.Now()
-			r := eng.verifyFunc(k, eng.cs.Funcs[k], -1)
-			if verbose {
-				fmt.Printf("  gen %-70s %.2fs paths=%d obs=%d (dependency)\n", k, time.Since(tf).Seconds(), r.Paths, len(r.Obs))
+			for _, view := range eng.cs.Funcs[k].Views() {
+				tf := time.Now()
+				eng.curView = view
+				r := eng.verifyFunc(k, eng.cs.Funcs[k], -1)
+				eng.curView = ""
+				if verbose {
+					fmt.Printf("  gen %-70s %.2fs paths=%d obs=%d (dependency) view=%q\n", k, time.Since(tf).Seconds(), r.Paths, len(r.Obs), view)
+				}
+				results = append(results, r)
+				fns = append(fns, fnInfo{k, r.Where, r.Instrs, r.Paths})
 			}
-			results = append(results, r)
-			fns = append(fns, fnInfo{k, r.Where, r.Instrs, r.Paths})
 			deps = append(deps, k)
 		}
 	}
